@@ -211,22 +211,22 @@ func (op _OpContextType) decodeInst(x uint32) (as abi.As, arg *abi.AsArgument, a
 	case OpFormatType_2R_msbw_lsbw:
 		argRaw.Rd = rd
 		argRaw.Rs1 = rj
-		argRaw.Rs2 = rk
-		argRaw.Rs3 = fa
+		argRaw.Rs2 = uimm(x, 16, 5) // msbw
+		argRaw.Rs3 = uimm(x, 10, 5) // lsbw
 		arg.Rd = op.decodeRegI(rd)
 		arg.Rs1 = op.decodeRegI(rj)
-		arg.Rs2 = abi.RegType(rk)
-		arg.Rs3 = abi.RegType(fa)
+		arg.Rs2 = abi.RegType(argRaw.Rs2)
+		arg.Rs3 = abi.RegType(argRaw.Rs3)
 		return
 	case OpFormatType_2R_msbd_lsbd:
 		argRaw.Rd = rd
 		argRaw.Rs1 = rj
-		argRaw.Rs2 = rk
-		argRaw.Rs3 = fa
+		argRaw.Rs2 = uimm(x, 16, 6) // msbd
+		argRaw.Rs3 = uimm(x, 10, 6) // lsbd
 		arg.Rd = op.decodeRegI(rd)
 		arg.Rs1 = op.decodeRegI(rj)
-		arg.Rs2 = abi.RegType(rk)
-		arg.Rs3 = abi.RegType(fa)
+		arg.Rs2 = abi.RegType(argRaw.Rs2)
+		arg.Rs3 = abi.RegType(argRaw.Rs3)
 		return
 	case OpFormatType_fcsr_1R:
 		argRaw.Rd = rd
